@@ -25,7 +25,7 @@ func init() {
 		}
 		files := map[string]string{"t.rb": string(src)}
 		argv := append([]string{"t.rb"}, args[1:]...)
-		res := pool.RunAll([]*engine.Case{{Files: files, Argv: argv, Order: os.Getenv("VERIF_ORDER")}})
+		res := pool.RunAll([]*engine.Case{{Files: files, Argv: argv, Order: os.Getenv("VERIF_ORDER"), Dump: os.Getenv("VERIF_DUMP")}})
 		b, _ := json.MarshalIndent(res[0], "", " ")
 		fmt.Println(string(b))
 		rr := pool.RunReal("default", files, argv)
